@@ -22,12 +22,34 @@ EXTENDS Integers, Sequences, FiniteSets, TLC
 
 CONSTANTS Impl,     \* "fixed" | "asis"
           Reps,     \* [id -> [min |-> bytes, html |-> bytes]]  (oracle)
-          Wide      \* FALSE: quick domain; TRUE: every spelling gets the full Range table, both minify settings
+          Wide,     \* FALSE: quick domain; TRUE: every spelling gets the full Range table, both minify settings
+          Limits    \* the size constants of handler.go / cache.go (read from the source by the check)
 
 N(x) == ToString(x)
 Big  == 2147483647          \* stands for "larger than any file" (TLC ints are 32 bit)
 Min2(x, y) == IF x < y THEN x ELSE y
 Max2(x, y) == IF x > y THEN x ELSE y
+
+(* Byte strings are compared in run-length form <<byte, count>>,... (canonical: neighbours differ,  *)
+(* counts > 0) so that assets larger than the handler's size constants can be specified exactly.  *)
+RECURSIVE ToR(_, _, _)
+ToR(b, i, acc) == IF i > Len(b) THEN acc
+                  ELSE IF acc # <<>> /\ acc[Len(acc)][1] = b[i]
+                         THEN ToR(b, i + 1, [acc EXCEPT ![Len(acc)] = <<b[i], @[2] + 1>>])
+                  ELSE ToR(b, i + 1, Append(acc, <<b[i], 1>>))
+ToRLE(b) == ToR(b, 1, <<>>)
+RECURSIVE RLenR(_, _)
+RLenR(r, i) == IF i > Len(r) THEN 0 ELSE r[i][2] + RLenR(r, i + 1)
+RLen(r) == RLenR(r, 1)
+RECURSIVE RSl(_, _, _, _, _, _)
+RSl(r, i, off, s, e, acc) ==                       \* off: position of the first byte of run i
+  IF i > Len(r) \/ off > e THEN acc
+  ELSE LET n  == r[i][2]
+           lo == Max2(s, off)
+           hi == Min2(e, off + (n - 1))
+       IN IF lo <= hi THEN RSl(r, i + 1, off + n, s, e, Append(acc, <<r[i][1], (hi - lo) + 1>>))
+          ELSE RSl(r, i + 1, off + n, s, e, acc)
+RSlice(r, s, e) == IF e < s THEN <<>> ELSE RSl(r, 1, 0, s, e, <<>>)     \* bytes s..e (0-based, inclusive)
 
 ------------------------------------------------------------------------------
 (* 1. Fixture.  Paths are sequences of names relative to the asset root.      *)
@@ -50,13 +72,32 @@ Files == { [p |-> <<"assets","a.txt">>,       id |-> "a", kind |-> "plain"],
            [p |-> <<"assets","c.css">>,       id |-> "c", kind |-> "css"],
            [p |-> <<"assets","m.md">>,        id |-> "m", kind |-> "md"],
            [p |-> <<"x.txt">>,                id |-> "x", kind |-> "plain"] }
+(* One asset just above each size constant of the handler (quick: only the largest).  Content:  *)
+(* runs of one byte value, a new run at every multiple of Band and at K-1, K, K+1 for every      *)
+(* constant K, so that a slice cut, shifted or padded around a constant has a different form.    *)
+Band == 524287
+MaxLimit == CHOOSE k \in Limits : \A j \in Limits : j <= k
+BigKs == IF Wide THEN Limits ELSE {MaxLimit}
+BigSize(k) == k + 3
+Bounds(sz) == {x \in UNION {{k - 1, k, k + 1} : k \in Limits} \cup {i * Band : i \in 1 .. (sz \div Band)} : x > 0 /\ x < sz}
+RECURSIVE BigRuns(_, _, _, _)
+BigRuns(bs, from, sz, j) ==                         \* bs: boundaries not yet used
+  IF bs = {} THEN <<<<33 + (j % 89), sz - from>>>>
+  ELSE LET b == CHOOSE x \in bs : \A y \in bs : x <= y
+       IN <<<<33 + (j % 89), b - from>>>> \o BigRuns(bs \ {b}, b, sz, j + 1)
+BigFiles == { [p |-> <<"assets", "big" \o N(k) \o ".bin">>, id |-> "big" \o N(k), kind |-> "plain",
+               size |-> BigSize(k), rle |-> BigRuns(Bounds(BigSize(k)), 0, BigSize(k), 0)] : k \in BigKs }
+BigIds == {f.id : f \in BigFiles}
 Dirs  == { <<>>, <<"assets">>, <<"assets","sub">> }
 OutFiles == { [p |-> <<"secret.txt">>, bytes |-> Secret] }       \* relative to libx/
 Links == { [p |-> <<"assets","lin">>,  zone |-> "in",  tgt |-> <<"assets","a.txt">>],
            [p |-> <<"assets","lout">>, zone |-> "out", tgt |-> <<"secret.txt">>],
            [p |-> <<"assets","dout">>, zone |-> "out", tgt |-> <<>>] }
-Fixture == [raw |-> Raw, files |-> Files, dirs |-> Dirs, outfiles |-> OutFiles, links |-> Links,
+Fixture == [raw |-> Raw, files |-> Files, bigfiles |-> BigFiles, dirs |-> Dirs, outfiles |-> OutFiles, links |-> Links,
             outdir |-> "libx", root |-> "lib"]
+(* raw content of a file, run-length form *)
+RawR(id) == IF id \in BigIds THEN (CHOOSE f \in BigFiles : f.id = id).rle ELSE ToRLE(Raw[id])
+SecretR == ToRLE(Secret)
 
 IsPrefix(p, q) == Len(p) <= Len(q) /\ SubSeq(q, 1, Len(p)) = p
 NoNode == [t |-> "none", id |-> "", kind |-> ""]
@@ -64,6 +105,8 @@ NoNode == [t |-> "none", id |-> "", kind |-> ""]
 Lookup(p) ==
   IF \E f \in Files : f.p = p
     THEN LET f == CHOOSE f \in Files : f.p = p IN [t |-> "file", id |-> f.id, kind |-> f.kind]
+  ELSE IF \E f \in BigFiles : f.p = p
+    THEN LET f == CHOOSE f \in BigFiles : f.p = p IN [t |-> "file", id |-> f.id, kind |-> f.kind]
   ELSE IF \E l \in Links : l.zone = "in" /\ l.p = p
     THEN LET l == CHOOSE l \in Links : l.zone = "in" /\ l.p = p
              f == CHOOSE f \in Files : f.p = l.tgt IN [t |-> "file", id |-> f.id, kind |-> f.kind]
@@ -104,7 +147,7 @@ PC(cls, parts, ext) == [cls |-> cls, url |-> UrlOf(parts), segs |-> SegsOf(parts
 A == S("assets")
 DD == S("..")
 EDD == Part("%2e%2e", <<"..">>)
-PathCases ==
+SmallPathCases ==
   { PC("direct", <<A, S("a.txt")>>, ""), PC("direct", <<A, S("e.txt")>>, ""),
     PC("direct", <<A, S("sub"), S("a.txt")>>, ""), PC("direct", <<A, S("s.js")>>, "js"),
     PC("direct", <<A, S("c.css")>>, "css"), PC("direct", <<A, S("m.md")>>, "md"),
@@ -146,8 +189,9 @@ PathCases ==
     PC("dir", <<A, S("")>>, ""),
     PC("missing", <<A, S("nope.txt")>>, ""), PC("missing", <<A, S("a.txt"), S("x")>>, ""),
     PC("missing", <<A, Part("a.txt%00", <<"a.txt<NUL>">>)>>, "") }
+PathCases == SmallPathCases \cup { PC("big", <<A, S("big" \o N(k) \o ".bin")>>, "") : k \in BigKs }
 
-Rawlen(path) == LET n == NamedOf(path.segs) IN IF n.t = "file" THEN Len(Raw[n.id]) ELSE 0
+Rawlen(path) == LET n == NamedOf(path.segs) IN IF n.t = "file" THEN RLen(RawR(n.id)) ELSE 0
 
 (* sem: what the header MEANS (RFC 9110 single range forms) - used by the contract;   *)
 (* shape: finer label of the spelling - used by the model's parser and by Key.        *)
@@ -179,14 +223,24 @@ SmallRanges ==
    RC("from", "from", "bytes=0-", 0, 0), RC("from", "from", "bytes=9-", 9, 0),
    RC("nodash", "other", "bytes=1", 1, 0), RC("multi", "other", "bytes=0-0,2-3", 0, 0),
    RC("suffix", "suffix", "bytes=-1", 1, 0)}
-RangesOf(path) == IF path.cls \in {"direct", "symlink-in"} \/ (Wide /\ NamedOf(path.segs).t \in {"file", "outside"})
+(* ranges of an asset of size sz that cover exactly / more than each size constant K, from the    *)
+(* start, from the end, across K, and the whole asset                                           *)
+AB(a, b) == RC("ab", "ab", "bytes=" \o N(a) \o "-" \o N(b), a, b)
+FROM(a)  == RC("from", "from", "bytes=" \o N(a) \o "-", a, 0)
+BigRanges(sz) ==
+  {NoRange, FROM(0), FROM(1), AB(0, sz - 1), AB(1, sz - 1), AB(0, sz), AB(0, Big), FROM(sz - 1), FROM(sz), AB(sz, sz + 1),
+   RC("nodash", "nodash-big", "bytes=" \o N(sz - 1), sz - 1, 0)}
+  \cup UNION { {AB(0, k - 1), AB(0, k), AB(1, k), AB(1, k + 1), AB(k - 1, k + 1), AB((sz - k) - 1, sz - 1),
+                FROM((sz - k) - 1), FROM(sz - k), RC("suffix", "suffix", "bytes=-" \o N(k + 1), k + 1, 0)}
+              : k \in {j \in Limits : j + 1 <= sz} }
+RangesOf(path) == IF path.cls = "big" THEN BigRanges(Rawlen(path)) ELSE IF path.cls \in {"direct", "symlink-in"} \/ (Wide /\ NamedOf(path.segs).t \in {"file", "outside"})
                   THEN FullRanges(Rawlen(path)) ELSE SmallRanges
 
 Cross(u) == IF u = "/assets/a.txt" THEN "/assets/sub/a.txt"
             ELSE IF u = "/assets/sub/a.txt" THEN "/assets/a.txt" ELSE ""
 Minifiable(path) == path.ext \in {"js", "css"} \/ NamedOf(path.segs).kind \in {"js", "css"}
-MinsOf(path)   == IF Minifiable(path) \/ Wide THEN BOOLEAN ELSE {FALSE}
-PrimesOf(path) == {""} \cup (IF NamedOf(path.segs).t \in {"file", "outside"} THEN {path.url} ELSE {})
+MinsOf(path)   == IF (Minifiable(path) \/ Wide) /\ path.cls # "big" THEN BOOLEAN ELSE {FALSE}
+PrimesOf(path) == {""} \cup (IF NamedOf(path.segs).t \in {"file", "outside"} /\ (Wide \/ path.cls # "big") THEN {path.url} ELSE {})
                        \cup (IF Cross(path.url) # "" THEN {Cross(path.url)} ELSE {})
 Methods == {"GET", "HEAD"}
 
@@ -198,36 +252,38 @@ WF(in) == /\ in.path \in PathCases /\ in.range \in RangesOf(in.path) /\ in.metho
           /\ in.min \in MinsOf(in.path) /\ in.prime \in PrimesOf(in.path)
 
 ------------------------------------------------------------------------------
-(* 3. Contract.  out = [status, cr (Content-Range or ""), cl (Content-Length or ""),   *)
-(*    body (bytes), panicked (the handler did not return: a panic left it)]            *)
+(* 3. Contract.  out = [status, cr (Content-Range or ""), cl (Content-Length or ""), panicked    *)
+(*    (a panic left the handler), and the body: big = FALSE -> body (bytes), big = TRUE -> rle (the     *)
+(*    same bytes in canonical run-length form; the harness uses it for bodies over 256 bytes)]          *)
 
-Out(f, min) == CASE f.kind = "md" -> Reps[f.id].html
-                 [] f.kind \in {"js", "css"} /\ min -> Reps[f.id].min
-                 [] OTHER -> Raw[f.id]
+OutR(f, min) == CASE f.kind = "md" -> ToRLE(Reps[f.id].html)
+                  [] f.kind \in {"js", "css"} /\ min -> ToRLE(Reps[f.id].min)
+                  [] OTHER -> RawR(f.id)
 CR(s, e, L) == "bytes " \o N(s) \o "-" \o N(e) \o "/" \o N(L)
-Slice(rep, s, e) == SubSeq(rep, s + 1, e + 1)
-BodyIs(in, out, seq) == /\ out.cl \in {"", N(Len(seq))}
-                        /\ out.body = IF in.method = "HEAD" THEN <<>> ELSE seq
+BodyR(out) == IF out.big THEN out.rle ELSE ToRLE(out.body)
+BodyIs(in, out, rep) == /\ out.cl \in {"", N(RLen(rep))}
+                        /\ BodyR(out) = IF in.method = "HEAD" THEN <<>> ELSE rep
 
 NoPanicOut(out)   == ~out.panicked
-NoOutsideOut(out) == \A i \in 1 .. Len(out.body) : out.body[i] \notin Canary
+NoOutsideOut(out) == /\ \A i \in 1 .. Len(out.body) : out.body[i] \notin Canary
+                     /\ \A i \in 1 .. Len(out.rle) : out.rle[i][1] \notin Canary
 IsError(out)      == out.status \in 400 .. 599
 
-Full200(in, out, f) == out.status = 200 /\ out.cr = "" /\ BodyIs(in, out, Out(f, in.min))
-PartOK(in, out, rep, s, e) == out.cr = CR(s, e, Len(rep)) /\ BodyIs(in, out, Slice(rep, s, e))
+Full200(in, out, f) == out.status = 200 /\ out.cr = "" /\ BodyIs(in, out, OutR(f, in.min))
+PartOK(in, out, rep, s, e) == out.cr = CR(s, e, RLen(rep)) /\ BodyIs(in, out, RSlice(rep, s, e))
 (* a ranged answer may come from either representation (raw file or rendered/minified) as long  *)
 (* as range, total and body agree for that representation; for a well-formed single range the   *)
 (* answered range must be the requested one clamped to the representation.                      *)
 Partial206(in, out, f) ==
   /\ out.status = 206
-  /\ \E rep \in {Raw[f.id], Out(f, in.min)} :
-       LET L == Len(rep)
+  /\ \E rep \in {RawR(f.id), OutR(f, in.min)} :
+       LET L == RLen(rep)
            r == in.range
        IN CASE r.sem = "ab"     -> r.a <= r.b /\ r.a < L /\ PartOK(in, out, rep, r.a, Min2(r.b, L - 1))
             [] r.sem = "from"   -> r.a < L /\ PartOK(in, out, rep, r.a, L - 1)
             [] r.sem = "suffix" -> r.a > 0 /\ L > 0 /\ PartOK(in, out, rep, Max2(0, L - r.a), L - 1)
             [] r.sem = "other"  -> \E s \in 0 .. (L - 1) : \E e \in s .. (L - 1) : PartOK(in, out, rep, s, e)
-            [] OTHER            -> FALSE      \* no Range header: a 206 is not an answer
+            [] OTHER            -> FALSE      \* no Range header (or a malformed one on a big asset): a 206 is not an answer
 
 Served(in, out) == LET f == NamedOf(in.path.segs) IN
                    f.t = "file" /\ (Full200(in, out, f) \/ Partial206(in, out, f))
@@ -261,65 +317,89 @@ VARIABLES cache,    \* decoded path (here: url) -> bytes held by the asset cache
           steps
 vars == <<cache, cfg, last, steps>>
 
-Resp(st, cr, cl, body) == [status |-> st, cr |-> cr, cl |-> cl, body |-> body, panicked |-> FALSE]
+Resp(st, cr, cl, rle) == [status |-> st, cr |-> cr, cl |-> cl, body |-> <<>>, big |-> TRUE, rle |-> rle, panicked |-> FALSE]
 ErrResp(st) == Resp(st, "", "", <<>>)       \* error texts are abstracted to an empty body
-PanicResp   == [status |-> 500, cr |-> "", cl |-> "", body |-> <<>>, panicked |-> TRUE]
-Asis == Impl = "asis"
+PanicResp   == [status |-> 500, cr |-> "", cl |-> "", body |-> <<>>, big |-> TRUE, rle |-> <<>>, panicked |-> TRUE]
+(* Impl: "fixed" = the design; "asis" = the defects read off the code; "trunc", "pool" = the design plus   *)
+(* one more defect class each (negative controls of the size-constant and of the concurrent stage).      *)
 
 PR(k, has, s, e, open) == [k |-> k, has |-> has, s |-> s, e |-> e, open |-> open]
 (* the suffix that selects minification / rendering: as-is it is taken from the request   *)
 (* spelling, in the design from the file the path names                                   *)
-ExtOf(path) == IF Asis THEN path.ext
+ExtOf(path) == IF Impl = "asis" THEN path.ext
                ELSE LET n == NamedOf(path.segs) IN IF n.t = "file" /\ n.kind # "plain" THEN n.kind ELSE ""
 Parse(path, r) ==
-  IF ~Asis /\ ExtOf(path) = "md" THEN PR("ok", FALSE, 0, 0, TRUE)       \* design: rendered pages ignore Range
+  IF Impl # "asis" /\ ExtOf(path) = "md" THEN PR("ok", FALSE, 0, 0, TRUE)       \* design: rendered pages ignore Range
   ELSE CASE r.shape = "none" -> PR("ok", FALSE, 0, 0, TRUE)
          [] r.shape \in {"ab", "abc"} -> PR("ok", TRUE, r.a, r.b, FALSE)
          [] r.shape = "ab-max63" -> PR("ok", TRUE, r.a, 0, TRUE)      \* 2^63-1 is the open-ended sentinel
          [] r.shape \in {"from", "from-max63"} -> PR("ok", TRUE, r.a, 0, TRUE)
-         [] r.shape = "nodash" -> PR(IF Asis THEN "panic" ELSE "bad", FALSE, 0, 0, TRUE)   \* ranges[1] without a length check
+         [] r.shape = "nodash" -> PR(IF Impl = "asis" THEN "panic" ELSE "bad", FALSE, 0, 0, TRUE)   \* ranges[1] without a length check
          [] OTHER -> PR("bad", FALSE, 0, 0, TRUE)
+NoPR == PR("ok", FALSE, 0, 0, TRUE)
+
+(* The handler in three phases (the concurrent model interleaves them):                    *)
+(*   Pre      - checks and Range parsing that touch no shared state                        *)
+(*   LoadStep - Loader: the cache (lookup / read + insert) or readAssetRange               *)
+(*   Reply    - rendering, headers, body                                                   *)
+Phase(k, out, pr) == [k |-> k, out |-> out, pr |-> pr]
+Pre(req) ==
+  LET segs == req.path.segs
+      pr   == Parse(req.path, req.range)
+  IN
+  IF Len(segs) = 0 \/ segs[1] # "assets" THEN Phase("resp", ErrResp(404), NoPR)                     \* router
+  ELSE IF segs[Len(segs)] = "" THEN Phase("resp", ErrResp(403), NoPR)                               \* index read
+  ELSE IF \E i \in 1 .. (Len(segs) - 1) : segs[i] = ".." THEN Phase("resp", ErrResp(403), NoPR)     \* "/../"
+  ELSE IF pr.k = "panic" THEN Phase("resp", PanicResp, NoPR)
+  ELSE IF pr.k = "bad" THEN Phase("resp", ErrResp(400), NoPR)
+  ELSE IF pr.has /\ ~pr.open /\ pr.e < pr.s THEN Phase("resp", ErrResp(400), NoPR)
+  ELSE Phase("load", ErrResp(404), pr)
+
+Readable(node) == node.t = "file" \/ (Impl = "asis" /\ node.t = "outside")   \* as-is follows links out of the root
+ContentOf(node) == IF node.t = "file" THEN RawR(node.id) ELSE SecretR
+IsFullLoad(pr) == pr.s = 0 /\ pr.open
+MinLimit == CHOOSE k \in Limits : \A j \in Limits : k <= j
+
+Loaded(k, out, data, total, ch) == [k |-> k, out |-> out, data |-> data, total |-> total, cache |-> ch]
+LoadStep(req, pr, min, ch) ==
+  LET path == req.path
+      node == NamedOf(path.segs)
+      ext  == ExtOf(path)
+      content == ContentOf(node)
+  IN
+  IF IsFullLoad(pr)
+    THEN (IF path.url \in DOMAIN ch
+            THEN Loaded("data", ErrResp(404), ch[path.url], IF Impl = "asis" THEN 0 ELSE RLen(ch[path.url]), ch)   \* as-is: size forgotten on a hit
+          ELSE IF ~Readable(node) THEN Loaded("resp", ErrResp(404), <<>>, 0, ch)
+          ELSE LET d == IF ext \in {"js", "css"} /\ min /\ node.t = "file" THEN ToRLE(Reps[node.id].min) ELSE content
+               IN Loaded("data", ErrResp(404), d, RLen(d), (path.url :> d) @@ ch))
+  ELSE IF ~Readable(node) THEN Loaded("resp", ErrResp(404), <<>>, 0, ch)
+  ELSE LET total == RLen(content)
+           e2 == IF pr.open \/ pr.e >= total THEN total - 1 ELSE pr.e
+           size == (e2 - pr.s) + 1
+           e3 == IF Impl = "trunc" /\ size > MinLimit THEN pr.s + (MinLimit - 1) ELSE e2    \* "trunc": reads capped at a size constant
+       IN IF size < 0 THEN (IF Impl = "asis" THEN Loaded("resp", PanicResp, <<>>, 0, ch)       \* make([]byte, negative)
+                            ELSE Loaded("data", ErrResp(404), <<>>, total, ch))
+          ELSE Loaded("data", ErrResp(404), RSlice(content, pr.s, e3), total, ch)
+
+Reply(req, pr, data, total) ==
+  LET node == NamedOf(req.path.segs)
+      ext  == ExtOf(req.path)
+      html == IF node.t = "file" /\ node.id \notin BigIds THEN ToRLE(Reps[node.id].html) ELSE <<<<63, 1>>>>
+      d2   == IF ext # "md" THEN data ELSE IF data = ContentOf(node) THEN html ELSE <<<<63, 1>>>>   \* render of a fragment: garbage
+      re   == IF pr.open \/ pr.e >= total THEN total - 1 ELSE pr.e
+      body == IF req.method = "HEAD" THEN <<>> ELSE d2
+  IN IF pr.has
+       THEN (IF Impl # "asis" /\ pr.s >= total THEN ErrResp(416)
+             ELSE Resp(206, CR(pr.s, re, total), N(RLen(d2)), body))
+       ELSE Resp(200, "", IF req.method = "HEAD" THEN N(RLen(d2)) ELSE "", body)
 
 Handle(req, min, ch) ==
-  LET path == req.path
-      segs == path.segs
-      pr   == Parse(path, req.range)
-      ext  == ExtOf(path)
-      keep(o) == [out |-> o, cache |-> ch]
-  IN
-  IF Len(segs) = 0 \/ segs[1] # "assets" THEN keep(ErrResp(404))                     \* router
-  ELSE IF segs[Len(segs)] = "" THEN keep(ErrResp(403))                               \* index read
-  ELSE IF \E i \in 1 .. (Len(segs) - 1) : segs[i] = ".." THEN keep(ErrResp(403))     \* "/../"
-  ELSE IF pr.k = "panic" THEN keep(PanicResp)
-  ELSE IF pr.k = "bad" THEN keep(ErrResp(400))
-  ELSE IF pr.has /\ ~pr.open /\ pr.e < pr.s THEN keep(ErrResp(400))
-  ELSE
-  LET node == NamedOf(segs)
-      readable == node.t = "file" \/ (Asis /\ node.t = "outside")      \* as-is follows links out of the root
-      content  == IF node.t = "file" THEN Raw[node.id] ELSE Secret
-      html     == IF node.t = "file" THEN Reps[node.id].html ELSE <<63>>
-      render(d) == IF ext # "md" THEN d ELSE IF d = content THEN html ELSE <<63>>  \* render of a fragment: garbage
-      reply(data, total, ch2) ==
-        LET d2 == render(data)
-            re == IF pr.open \/ pr.e >= total THEN total - 1 ELSE pr.e
-            body == IF req.method = "HEAD" THEN <<>> ELSE d2
-        IN IF pr.has
-             THEN (IF ~Asis /\ pr.s >= total THEN [out |-> ErrResp(416), cache |-> ch2]
-                   ELSE [out |-> Resp(206, CR(pr.s, re, total), N(Len(d2)), body), cache |-> ch2])
-             ELSE [out |-> Resp(200, "", IF req.method = "HEAD" THEN N(Len(d2)) ELSE "", body), cache |-> ch2]
-  IN
-  IF pr.s = 0 /\ pr.open
-    THEN (IF path.url \in DOMAIN ch
-            THEN reply(ch[path.url], IF Asis THEN 0 ELSE Len(ch[path.url]), ch)     \* as-is: size forgotten on a hit
-          ELSE IF ~readable THEN keep(ErrResp(404))
-          ELSE LET d == IF ext \in {"js", "css"} /\ min /\ node.t = "file" THEN Reps[node.id].min ELSE content
-               IN reply(d, Len(d), (path.url :> d) @@ ch))
-  ELSE IF ~readable THEN keep(ErrResp(404))
-  ELSE LET total == Len(content)
-           e2 == IF pr.open \/ pr.e >= total THEN total - 1 ELSE pr.e
-           size == e2 - pr.s + 1
-       IN IF size < 0 THEN (IF Asis THEN keep(PanicResp) ELSE keep(ErrResp(416)))   \* make([]byte, negative)
-          ELSE reply(Slice(content, pr.s, e2), total, ch)
+  LET a == Pre(req) IN
+  IF a.k = "resp" THEN [out |-> a.out, cache |-> ch]
+  ELSE LET l == LoadStep(req, a.pr, min, ch) IN
+       IF l.k = "resp" THEN [out |-> l.out, cache |-> l.cache]
+       ELSE [out |-> Reply(req, a.pr, l.data, l.total), cache |-> l.cache]
 
 BaseRequests == UNION { { [method |-> me, path |-> p, range |-> r] : me \in Methods, r \in RangesOf(p) } : p \in PathCases }
 IsPrimer(req) == req.method = "GET" /\ req.range.shape = "none"
